@@ -208,7 +208,7 @@ func (r *realRepo) write(s *repoState) error {
 			case "text":
 				fmt.Fprintf(&b, "text_file(name=%q, out=%q, content=%q, visibility=[\"PUBLIC\"])\n", nameOf(l), t.Out, t.Const)
 			case "opt":
-				fmt.Fprintf(&b, "genrule(name=%q, srcs=[%s], outs=[%q], optional_outs=[\"*.extra\"], cmd=%q, visibility=[\"PUBLIC\"])\n",
+				fmt.Fprintf(&b, "genrule(name=%q, srcs=[%s], outs=[%q], optional_outs=[\"*.extra\", \"sub/*.extra\"], cmd=%q, visibility=[\"PUBLIC\"])\n",
 					nameOf(l), strings.Join(srcs, ", "), t.Out, r.cmdFor(t))
 			default:
 				fmt.Fprintf(&b, "genrule(name=%q, srcs=[%s], outs=[%q], cmd=%q, visibility=[\"PUBLIC\"])\n",
@@ -515,6 +515,9 @@ func (g *gen) newLabel() (string, string) {
 	pkg := lib.Pick(g.r, []string{"p", "q", "p"})
 	name := fmt.Sprintf("t%d", g.n)
 	out := name + ".out"
+	if g.r.Chance(25) { // a declared output below a sub-directory of the package: parent creation, archive member paths
+		out = "sub/" + out
+	}
 	return "//" + pkg + ":" + name, out
 }
 
